@@ -294,6 +294,20 @@ class VOpaque(V):
         return f"VOpaque({self.tag})"
 
 
+class VCoro(V):
+    """an un-started coroutine object (async def call); runs when awaited or scheduled"""
+    __slots__ = ('thunk', 'qualname', 'started')
+    concrete = True
+
+    def __init__(self, thunk, qualname):
+        self.thunk = thunk          # callable(st) -> generator of (st, V | Raise)
+        self.qualname = qualname
+        self.started = False
+
+    def __repr__(self):
+        return f"VCoro({self.qualname})"
+
+
 class Raise:
     """Result marker: evaluation raised ``exc`` (a VExc)."""
     __slots__ = ('exc',)
